@@ -21,6 +21,12 @@ pub assume_specification<T: std::cmp::Ord>[std::cmp::max](a: T, b: T) -> (r: T)
         T::obeys_cmp_spec() ==> (r == if a.cmp_spec(&b) == core::cmp::Ordering::Greater { a } else { b }),
 ;
 
+// [trusted:assumed-spec] std::cmp::min on an Ord type returns the smaller (a on ties)
+pub assume_specification<T: std::cmp::Ord>[std::cmp::min](a: T, b: T) -> (r: T)
+    ensures
+        T::obeys_cmp_spec() ==> (r == if a.cmp_spec(&b) == core::cmp::Ordering::Greater { b } else { a }),
+;
+
 // [trusted:assumed-spec] <[T]>::reverse reverses the slice in place
 pub assume_specification<T>[<[T]>::reverse](s: &mut [T])
     ensures final(s)@ == old(s)@.reverse(),
